@@ -3,6 +3,7 @@ package main
 // C05 — Newick write -> read, names that need quoting.
 
 import (
+	"strings"
 	"bytes"
 	"fmt"
 	"io"
@@ -72,6 +73,17 @@ func decorate(r *rand.Rand, nodes []*newick.Node) {
 		// were removed — the same tree.
 		if len(n.Children) == 0 && r.IntN(3) == 0 {
 			n.Children = pick(r, [][]*newick.Node{{}, make([]*newick.Node, 0, 4), append([]*newick.Node{{Name: "removed"}}, nil)[:0]})
+		}
+	}
+	// Near-duplicates within one tree (and, as the base names come from a short list, within one stream): the same
+	// long name with blanks, with underscores in their place, in the other case, with a quote in it, with a blank
+	// at its end — names that the format's own escaping rules map close to each other, and that a reader which
+	// shares or caches names must still tell apart.
+	if len(nodes) >= 2 && r.IntN(4) == 0 {
+		base := pick(r, []string{"Homo sapiens neanderthalensis", "Escherichia coli str K-12 substr MG1655", "sp P69905 HBA HUMAN hemoglobin", "a b c d e f g h i j k l m n o p q"})
+		twins := []string{base, strings.ReplaceAll(base, " ", "_"), strings.ToUpper(base), base + " ", " " + base, strings.Replace(base, " ", "'", 1), strings.Replace(base, " ", "  ", 1), strings.ReplaceAll(base, " ", "_") + "_", "'" + base + "'"}
+		for j := 0; j < 2+r.IntN(4); j++ {
+			nodes[r.IntN(len(nodes))].Name = pick(r, twins)
 		}
 	}
 }
